@@ -59,6 +59,8 @@ void __wrap_free(void *p) { if (p) live_blocks--; __real_free(p); }
 
 #define MAXN 70000
 static void *enc_tab[MAXN], *recv_tab[MAXN], *avail_tab[MAXN], *src_tab[MAXN];
+static void *enc_base[MAXN], *recv_base[MAXN];	/* what malloc returned: one session in four places its symbols at odd offsets */
+static void *abuf(void **base, UINT32 L, unsigned off) { *base = malloc((L ? L : 1) + off); return (char *)*base + off; }
 static unsigned char *orig[MAXN];
 static int cb_esi[MAXN], cb_kind[MAXN], cb_size[MAXN], ncb;
 static void *cb_buf[MAXN];
@@ -179,6 +181,22 @@ int main(void)
 		of_session_t *enc = NULL, *dec = NULL;
 		of_status_t st;
 		int ro = 1, dec_ok = 0;
+		if (tok && !strcmp(tok, "U")) {
+			/* U <codec> <role 1 2 3> <stage> <k> <r> <L> <p1> <p2>: a session released early.  stage 0: created only; 1: configured;
+			 * 2: configured, callbacks registered, the source table fetched, the completion query asked.  Answer: R U<statuses> LK<live blocks left> */
+			long uc = atol(strtok(NULL, " \n")), ur = atol(strtok(NULL, " \n")), stg = atol(strtok(NULL, " \n"));
+			long uk = atol(strtok(NULL, " \n")), urr = atol(strtok(NULL, " \n")), uL = atol(strtok(NULL, " \n")), up1 = atol(strtok(NULL, " \n")), up2 = atol(strtok(NULL, " \n"));
+			long b0 = live_blocks; of_session_t *u = NULL; int s1 = -1, s2 = -1, s3 = -1;
+			s1 = of_create_codec_instance(&u, (of_codec_id_t)uc, (of_codec_type_t)ur, 0);
+			if (s1 == OF_STATUS_OK && stg >= 1) s2 = set_params(u, uc, uk, urr, uL, up1, up2);
+			if (s1 == OF_STATUS_OK && stg >= 2 && s2 == OF_STATUS_OK && (ur & 2)) {
+				cbmode = 2; of_set_callback_functions(u, src_cb, NULL, NULL);
+				memset(src_tab, 0, sizeof(void *) * (uk + 1)); of_get_source_symbols_tab(u, src_tab); (void)of_is_decoding_complete(u);
+			}
+			if (s1 == OF_STATUS_OK) s3 = of_release_codec_instance(u);
+			fprintf(out, "R U%d,%d,%d LK%ld\n", s1, s2, s3, live_blocks - b0);
+			continue;
+		}
 		if (!tok || strcmp(tok, "D")) { fprintf(out, "R BADREQ\n"); continue; }
 		codec = atol(strtok(NULL, " \n")); k = atol(strtok(NULL, " \n")); r = atol(strtok(NULL, " \n")); L = atol(strtok(NULL, " \n"));
 		p1 = atol(strtok(NULL, " \n")); p2 = atol(strtok(NULL, " \n")); seed = strtoull(strtok(NULL, " \n"), NULL, 10);
@@ -205,7 +223,7 @@ int main(void)
 			}
 		}
 		for (i = 0; i < n; i++) {
-			enc_tab[i] = malloc(L ? L : 1);
+			enc_tab[i] = abuf(&enc_base[i], L, (seed % 4 == 1) ? (unsigned)((i * 3 + 1) % 8) : 0);
 			if (i < (UINT32)k) {
 				/* payload: random bytes; one block in eight is degenerate - all zero, all 0xFF, or every source symbol equal to the first */
 				int pm = (int)(seed % 8 == 0 ? 1 + (seed / 8) % 3 : 0);
@@ -245,7 +263,7 @@ int main(void)
 				free(t2);
 				fprintf(out, " ED%d", okb);
 			}
-			for (i = 0; i < n; i++) { recv_tab[i] = malloc(L ? L : 1); memcpy(recv_tab[i], enc_tab[i], L); avail_tab[i] = NULL; }
+			for (i = 0; i < n; i++) { recv_tab[i] = abuf(&recv_base[i], L, (seed % 4 == 1) ? (unsigned)((i * 5 + 3) % 8) : 0); memcpy(recv_tab[i], enc_tab[i], L); avail_tab[i] = NULL; }
 			hl_setup = lib_blocks;
 			/* the source table before anything was submitted: every entry must be empty (or the call refused) */
 			{ int empty = 1; fetch_src_tab(dec, k); for (i = 0; i < (UINT32)k; i++) if (src_tab[i] || stale[i]) empty = 0; fprintf(out, " GI%d", empty); }
@@ -341,7 +359,7 @@ int main(void)
 		}
 		for (i = 0; i < (UINT32)ncbbuf; i++) free(cb_buf[i]);
 		for (i = 0; i < (UINT32)ndup; i++) free(dup_buf[i]);
-		for (i = 0; i < n; i++) { free(enc_tab[i]); if (recv_tab[i]) free(recv_tab[i]); recv_tab[i] = NULL; if (i < (UINT32)k) free(orig[i]); }
+		for (i = 0; i < n; i++) { free(enc_base[i]); if (recv_tab[i]) free(recv_base[i]); recv_tab[i] = NULL; if (i < (UINT32)k) free(orig[i]); }
 		if (dec_ok) {
 			fprintf(out, " HL%ld;", hl_setup);
 			for (i = 0; i < (UINT32)nhl; i++) fprintf(out, i ? ",%ld" : "%ld", hl[i]);
